@@ -78,10 +78,10 @@ static void suite_parse(Rng &rng) {
   for (int len : {100, 122, 123, 127, 200}) { std::string n(len, 'a'); n[0] = 'L'; write_file(n, rng.buf(10)); inputs.push_back({n, true}); }
   inputs.push_back({std::string(4000, 'z'), false});
   std::vector<std::pair<std::string, bool>> outputs = {{"out.bin", true}, {"nodir/out.bin", false}, {"out2", true}};
-  std::vector<std::string> keys = {KEY_OK, "AAAAAAAAAAAAAAAAAAAAAA==", "AAAAAAAAAAAAAAAAAAAAAAA=", "AAAAAAAAAAAAAAAAAAAAAAAA", "ABEiM0RVZneImaq7zN3u/w=", "ABEiM0RVZneImaq7zN3u_w==", "short==", "",
+  std::vector<std::string> keys = {KEY_OK, "AAAAAAAAAAAAAAAAAAAAAAA==", "AAAAAAAAAAAAAAAAAAAAAAAA==", "AAAAAAAAAAAAAAAAAAAAAAAAA==", "AAAAAAAAAAAAAAAAAAAAAA==", "AAAAAAAAAAAAAAAAAAAAAAA=", "AAAAAAAAAAAAAAAAAAAAAAAA", "ABEiM0RVZneImaq7zN3u/w=", "ABEiM0RVZneImaq7zN3u_w==", "short==", "",
                                    "ABEiM0RVZneImaq7zN3u/w==AAAA", "====================1234", "ABEiM0RVZne=maq7zN3u/w=="};
-  std::vector<std::string> cmodes = {"-1", "0", "1", "2", "3", "4", "5", "7", "255", "256", "300", "abc", "", " 2", "+3", "4x", "-0"};
-  std::vector<std::string> hmodes = {"-1", "0", "1", "2", "3", "256", "x", ""};
+  std::vector<std::string> cmodes = {"-1", "0", "1", "2", "3", "4", "5", "7", "255", "256", "257", "260", "300", "512", "-256", "65537", "abc", "", " 2", "+3", "4x", "-0"};
+  std::vector<std::string> hmodes = {"-1", "0", "1", "2", "3", "256", "258", "-255", "x", ""};
   auto modes = mode_opts();
   // (1) every single mode, every pair of modes, with presence/absence of i, o, k
   for (size_t m1 = 0; m1 < modes.size(); m1 += 1) for (int mask = 0; mask < 8; mask++) {
@@ -225,8 +225,26 @@ static void suite_bin(Rng &rng) {
   bin_case({D, opt_i("g.wenc", true), opt_o("-k", true), {"", {KEY_OK}}}, 0, "-o swallows -k");
   bin_case({E, D, opt_i("p.txt", true)}, 1, "two modes");
   bin_case({{"V", {"-V"}}}, 1, "version"); bin_case({{"h", {"-h"}}}, 1, "help");
-  for (const char *c : {"-1", "5", "7", "255", "256", "300", "abc", "4"}) bin_case({E, opt_i("p.txt", true), opt_o("out8", true), opt_c(c)}, 1, std::string("--cmode ") + c);
-  for (const char *h : {"3", "256", "2"}) bin_case({E, opt_i("p.txt", true), opt_o("out9", true), opt_h(h)}, 1, std::string("--hmode ") + h);
+  for (const char *c : {"-1", "5", "7", "255", "256", "257", "260", "300", "512", "-256", "65537", "abc", "4"}) {
+    bin_case({E, opt_i("p.txt", true), opt_o("out8", true), opt_c(c)}, 1, std::string("--cmode ") + c);
+    long n = strtol(c, NULL, 10);
+    if (n < 0 || n > 4) for (const char *md : {"-e", "-d", "-v"}) {   // property oracle: an out-of-range mode number is diagnosed, whatever the operation
+      Run r = run_bin({md, "-i", md[1] == 'e' ? "p.txt" : "g.wenc", "-o", "outm", "-k", KEY_OK, "--cmode", c}); g_runs++;
+      if (r.status == 0 || r.sig) emitA("bin", "C17", std::string("out-of-range --cmode ") + c + " with " + md + ": exit status " + S(r.status) + " signal " + S(r.sig) + " (expected a diagnostic and a non-zero status)");
+    }
+  }
+  for (const char *h : {"3", "256", "258", "-255", "2"}) {
+    bin_case({E, opt_i("p.txt", true), opt_o("out9", true), opt_h(h)}, 1, std::string("--hmode ") + h);
+    long n = strtol(h, NULL, 10);
+    if (n < 0 || n > 2) { Run r = run_bin({"-e", "-i", "p.txt", "-o", "outn", "--hmode", h}); g_runs++;
+      if (r.status == 0 || r.sig) emitA("bin", "C17", std::string("out-of-range --hmode ") + h + ": exit status " + S(r.status) + " signal " + S(r.sig)); }
+  }
+  // property oracles for the other documented misuses: diagnostic (some output) and non-zero status, no signal
+  { struct Mis { std::vector<std::string> a; const char *what; };
+    std::vector<Mis> mis = { {{"-i", "p.txt"}, "no mode"}, {{"-e", "-d", "-i", "p.txt"}, "two modes"}, {{"-e"}, "missing input"}, {{"-e", "-i", "nope.txt"}, "input does not exist"},
+      {{"-d", "-i", "g.wenc", "-o", "outo"}, "missing key for decryption"}, {{"-d", "-i", "g.wenc", "-k", KEY_OK}, "missing output for decryption"}, {{"-v", "-i", "g.wenc"}, "missing key for verification"},
+      {{"-e", "-i", "p.txt", "-k", "AAAAAAAAAAAAAAAAAAAAAAAA"}, "malformed key text"}, {{"-e", "-i", "p.txt", "-k", "AAAAAAAAAAAAAAAAAAAAAAAAA=="}, "key text too long"}, {{"-e", "-i", long200}, "very long path with default output"} };
+    for (auto &m : mis) { Run r = run_bin(m.a); g_runs++; if (r.status == 0 || r.sig || r.out.empty()) emitA("bin", "C17", std::string(m.what) + ": exit status " + S(r.status) + " signal " + S(r.sig) + (r.out.empty() ? " without any diagnostic" : "")); } }
   for (const char *k : {"AAAAAAAAAAAAAAAAAAAAAAAA", "AAAAAAAAAAAAAAAAAAAAAAA=", "short", ""}) { bin_case({E, opt_i("p.txt", true), opt_o("outa", true), opt_k(k)}, 1, "malformed key"); bin_case({D, opt_i("g.wenc", true), opt_o("outb", true), opt_k(k)}, 1, "malformed key"); }
   bin_case({E, opt_i("p.txt", true), opt_o("nodir/x", false)}, 1, "unopenable output");
   bin_case({E, opt_i("p.txt", true), {"?", {"-x"}}}, 1, "unknown option");
